@@ -42,7 +42,16 @@ def r1(ctx: Ctx) -> None:
     for p in normal_paths(ctx.paths(f.qualname)):
         for e in stores(p, "shock_time_length"):
             nlen += 1
-            ok = key(strip_ver(e.base)) == "self" and key(strip_ver(e.value)) == "settings['shockTimeLength']"
+            v = strip_ver(e.value)
+            good = ("settings['shockTimeLength']", "settings.get('shockTimeLength', self.shock_time_length)", "settings.get('shockTimeLength')")
+            ok = key(strip_ver(e.base)) == "self" and key(v) in good
+            if not ok and key(strip_ver(e.base)) == "self":
+                # anything the value depends on besides the configured key (and the attribute's own default) is reported;
+                # another spelling of the same read is not
+                deps = {key(x) for x in subterms(v) if x[0] in ("attr", "sym") and key(x) not in ("settings", "self", "self.shock_time_length")}
+                if not deps and "shockTimeLength" in key(v) and not any(x[0] == "bool" for x in subterms(v)):
+                    ctx.unrec(f, e.node, f"{FPS}: the window length is the configured one, whatever the session", "the configured length is read in a form that is not modelled", short(v))
+                    continue
             ctx.check(ok, f, e.node, f"{FPS}: the window length is the configured one, whatever the session", "self.shock_time_length = settings['shockTimeLength']", short(e.value))
     ctx.require(nlen >= 1, f"{FPS}.setup: shock_time_length is never configured")
     ws = {w.func.qualname for w in ctx.cg.writers_of(FPS, "shock_time_length")}
